@@ -15,7 +15,7 @@ struct evm { int cmd, type; long id; };
 static struct evm ring[64]; static int rcount; static struct evm cur; static bool inprog;
 static long next_id, last_started, processed, accepted, refused, failed_fast, opn, nops;
 static int script_left; static unsigned p_write; static prng_t HP;
-static bool hold_active; static long started_observed;
+static bool hold_active, h2_then_hold; static long started_observed;
 static bool saw_action_for_cur, cur_terminal_returned, cur_var_failed, saw_output_for_cur;
 
 static bool model_buffered(int cmd, int type)
@@ -32,8 +32,12 @@ static void on_phase(int code)
                 memmove(ring, ring + 1, sizeof(struct evm) * (size_t)(rcount - 1)); rcount--;
                 if (inprog) viol("C13", "dequeue-while-busy", "event dequeued while event id %ld is still in progress (it would be overwritten)", cur.id);
                 const struct cat_command *pc = cat_get_processed_command(W.at, CAT_FSM_TYPE_UNSOLICITED);
-                if (pc != W.cmd[e.cmd] || W.at->unsolicited_fsm.cmd_type != (cat_cmd_type)e.type)
-                        viol("C13", "not-fifo", "dequeued (cmd#%d, type %d) but the oldest accepted event is id %ld = (cmd#%d, type %d)", cmd_index(pc), (int)W.at->unsolicited_fsm.cmd_type, e.id, e.cmd, e.type);
+                /* what was dequeued is asked through the public queries only: the command in progress, and that it is reported as in progress with the type it was accepted with */
+                if (pc != W.cmd[e.cmd] || cat_is_unsolicited_event_buffered(W.at, W.cmd[e.cmd], (cat_cmd_type)e.type) != CAT_STATUS_BUSY)
+                        viol("C13", "not-fifo", "dequeued cmd#%d (reported in progress with type %d: %s) but the oldest accepted event is id %ld = (cmd#%d, type %d)", cmd_index(pc), e.type, pc == W.cmd[e.cmd] ? "no" : "-", e.id, e.cmd, e.type);
+                { int ot = e.type == CAT_CMD_TYPE_READ ? CAT_CMD_TYPE_TEST : CAT_CMD_TYPE_READ; bool other_waiting = false; for (int i = 0; i < rcount; i++) if (ring[i].cmd == e.cmd && ring[i].type == ot) other_waiting = true;
+                  if (!other_waiting && cat_is_unsolicited_event_buffered(W.at, W.cmd[e.cmd], (cat_cmd_type)ot) == CAT_STATUS_BUSY)
+                        viol("C13", "not-fifo", "the event just dequeued (id %ld, cmd#%d, type %d) is reported in progress with the other type %d", e.id, e.cmd, e.type, ot); }
                 if (e.id <= last_started) viol("C13", "order", "event id %ld started after id %ld", e.id, last_started);
                 last_started = e.id; cur = e; inprog = true; saw_action_for_cur = false; cur_terminal_returned = false; cur_var_failed = false; saw_output_for_cur = false; script_left = (int)pr_n(&HP, 3);
                 CNT("events_dequeued");
@@ -59,6 +63,8 @@ static cat_return_state policy(struct hcall *h)
         if (h->fsm == FSM_A) {
                 if (h->kind == K_RUN && h->ci == 5) { if (pr_pct(&HP, 50)) { hold_active = true; return CAT_RETURN_STATE_HOLD; } }
                 /* a command that waits for its own notification: "AT+H?" asks again (NEXT) as long as a READ event of +H is pending - events are processed independently of command traffic, so this ends */
+                if (h->kind == K_READ && h->ci == 4 && h2_then_hold) { h2_then_hold = false; hold_active = true; CNT("holds_entered_after_a_first_response_part"); return CAT_RETURN_STATE_HOLD; }      /* "AT+H2?": one part of the answer, then the command waits (hold) */
+                if (h->kind == K_READ && h->ci == 4 && h->max > 8 && pr_pct(&HP, 30)) { memcpy(h->data, "part", 5); *h->psize = 4; h2_then_hold = true; return CAT_RETURN_STATE_DATA_NEXT; }
                 if (h->kind == K_READ && h->ci == 4 && h->max > 4) { size_t L = h->max - 1 - pr_n(&HP, 3); memset(h->data, 'x', L); h->data[L] = 0; *h->psize = L; return CAT_RETURN_STATE_DATA_OK; }      /* "AT+H2?": a response that fills the command buffer (its flush cursor runs up to the end of the buffer) */
                 if (h->kind == K_READ && h->ci == 1 && cat_is_unsolicited_event_buffered(W.at, h->cmd, CAT_CMD_TYPE_READ) == CAT_STATUS_BUSY) { CNT("command_polls_for_its_own_event"); return CAT_RETURN_STATE_NEXT; }
                 return CAT_RETURN_STATE_DATA_OK;
@@ -148,7 +154,7 @@ void chk_run_case(uint64_t seed, long c, bool is_sweep)
         w_init((int)rn(2));
         pr_seed(&HP, seed ^ 0x13, (uint64_t)CUR_CASE);
         POLICY = policy; VPOLICY = vpolicy; ON_PHASE = on_phase; ON_WRITE = on_write;
-        rcount = 0; inprog = false; next_id = 1; last_started = 0; processed = accepted = refused = failed_fast = 0; script_left = 0; hold_active = false; started_observed = 0;
+        rcount = 0; inprog = false; next_id = 1; last_started = 0; processed = accepted = refused = failed_fast = 0; script_left = 0; hold_active = false; h2_then_hold = false; started_observed = 0;
         memset(&cur, 0, sizeof cur);
         nops = 50 + (long)rn(chance(20) ? 5000 : 600);
         unsigned p_trig = 20 + rn(50);
@@ -159,6 +165,14 @@ void chk_run_case(uint64_t seed, long c, bool is_sweep)
                 else if (r < p_trig + 10) check_queries();
                 else if (r < p_trig + 14) { p_write = chance(50) ? 100 : chance(50) ? 0 : 30; if (p_write == 100) sch_eager(&WS); else sch_bern(&WS, p_write, rnd()); }
                 else if (r < p_trig + 17 && INPOS >= INLEN) { in_reset(); in_puts(chance(35) ? "AT+H?\n" : chance(30) ? "AT+HOLD\r\n" : chance(30) ? "AT+H2?\n" : chance(50) ? "AT+AUTO=?\n" : "AT+H=000000000000000000000000000000000000000007\n"); }      /* the last one: the command machine's cursor moves far past the size of a small event buffer */
+                else if (r < p_trig + 21 && r >= p_trig + 19 && p_write == 100) {
+                        /* no further trigger, output always ready: the waiting events are processed within a bound, whatever the command machine is doing (idle, in the middle of a line, holding a command) */
+                        long b = 4000 + 400L * QCAP, i = 0;
+                        for (; i < b && (rcount != 0 || inprog) && !case_failed(); i++) svc();
+                        if (case_failed()) return;
+                        CNT(hold_active ? "bounded_drains_while_a_command_is_held" : "bounded_drains");
+                        if (rcount != 0 || inprog) { viol("C13", "events-left", "%d accepted event(s) waiting / %d in progress are not processed within %ld service calls although the output accepts every byte and nothing new is triggered (command held: %s)", rcount, inprog, b, hold_active ? "yes" : "no"); return; }
+                }
                 else if (r < p_trig + 19 && hold_active) { if (cat_hold_exit(W.at, CAT_STATUS_OK) == CAT_STATUS_OK) hold_active = false; }
                 else { int k = 1 + (int)rn(20); for (int i = 0; i < k; i++) { svc(); if (chance(10)) check_queries(); } }
         }
